@@ -105,11 +105,20 @@ fn main() {
         for kind in case["kinds"].as_array().unwrap_or(&empty) {
             let kind = kind.as_str().unwrap();
             let stats = stats_variant(&db, kind, &stale);
-            match optimize(stats, &pl.view, &pl.logical) {
+            match optimize_memo(stats, &pl.view, &pl.logical) {
                 Err(m) => {
                     plans.insert(kind.to_string(), json!({"panic": m}));
                 }
-                Ok(plan) => {
+                Ok((plan, memo_keys)) => {
+                    if kind == "fresh" {
+                        // the keys of the plan cache after optimizing this query, and the dictionary ids they mention
+                        out.insert("memo_keys".to_string(), json!(memo_keys));
+                        let mut ids = Vec::new();
+                        plan_ids(&db, &pl.logical, &mut ids);
+                        ids.sort();
+                        ids.dedup();
+                        out.insert("dict".to_string(), json!(ids));
+                    }
                     plans.insert(kind.to_string(), pop_json(&db, &plan));
                     match exec_plan(&mut db, &plan, &pl.view) {
                         Ok(b) => {
